@@ -7,13 +7,26 @@ mod verif_c01_device {
     use super::*;
     use crate::{FontData, FontRead};
 
-    //@harness unit=U01.11 props=C01,C20,C16 tier=quick level=bounded bound="any bytes <= 12 B (header + <= 3 delta words); first 9 values; exact count asserted for ranges of <= 8 sizes" timeout=1200 fns=Device::iter,iter_packed_values,DeltaFormat::value_count
+    // creating the iterator alone (the size arithmetic runs eagerly in Device::iter), for EVERY header
+    //@harness unit=U01.11 props=C01,C20,C16 tier=quick level=bounded bound="any bytes <= 8 B; iterator construction only" timeout=900 fns=Device::iter
+    #[kani::proof]
+    #[kani::unwind(4)]
+    fn device_iter_construction_total() {
+        let b: [u8; 8] = kani::any();
+        let len: usize = kani::any();
+        kani::assume(len <= 8);
+        let Ok(d) = Device::read(FontData::new(&b[..len])) else { return; };
+        let _it = d.iter();
+        kani::cover!(d.start_size() > d.end_size());
+        kani::cover!(d.start_size() == 0 && d.end_size() == 0xFFFF);
+    }
+    //@harness unit=U01.11 props=C01,C20,C16 tier=quick level=bounded bound="any bytes <= 8 B (header + <= 1 delta word); first 9 values; exact count asserted for ranges of <= 8 sizes" timeout=1800 fns=Device::iter,iter_packed_values,DeltaFormat::value_count
     #[kani::proof]
     #[kani::unwind(12)]
     fn device_iter_total_and_counts_sizes() {
-        let b: [u8; 12] = kani::any();
+        let b: [u8; 8] = kani::any();
         let len: usize = kani::any();
-        kani::assume(len <= 12);
+        kani::assume(len <= 8);
         let Ok(d) = Device::read(FontData::new(&b[..len])) else { return; };
         let (start, end) = (d.start_size(), d.end_size());
         let local = matches!(d.delta_format(), DeltaFormat::Local2BitDeltas | DeltaFormat::Local4BitDeltas | DeltaFormat::Local8BitDeltas);
